@@ -106,18 +106,20 @@ def rule_atomic(prog):
                      "%s is changed on a path that does not pass the Ok arm of cfg::new_from_file: a failed reload would no longer "
                      "behave as if no reload had been requested" % what)
     # strong form: Err exits after the first self-field write
-    first_writes = [bi for (bi, what, ln) in writes if what.startswith(("self.", "global:")) or what == "MAPPED_KEYS"]
+    first_writes = [bi for (bi, what, ln) in writes if what.startswith(("self.", "global:")) or what in ("MAPPED_KEYS", "update_kbd_out()")]
     err_exits = []
     for bi, t in f.calls():
         cn = callee_name(t) or ""
         if cn.endswith("FromResidual<core::result::Result<core::convert::Infallible, E>>>::from_residual") and bi in ok_region:
-            after_write = any(bi in f.reach_from(w) and bi != w for w in first_writes)
+            # which fallible call feeds this `?` (the closest dominating kanata call that returns a Result)
+            src, src_b = "?", None
+            for b2, t2 in f.calls():
+                if b2 in ok_region and f.dominates(b2, bi) and (callee_name(t2) or "").startswith("kanata") and "Result" in (f.local_ty(t2["dest"]["l"]) or ""):
+                    if src_b is None or f.dominates(src_b, b2):
+                        src, src_b = callee_name(t2).split("::")[-1], b2
+            # the failure of a call is not "after" that call's own effect
+            after_write = any(bi in f.reach_from(w) and bi != w and w != src_b for w in first_writes)
             if after_write:
-                # which fallible call feeds this `?`
-                src = "?"
-                for b2, t2 in f.calls():
-                    if b2 in ok_region and f.dominates(b2, bi) and (callee_name(t2) or "").startswith("kanata") and "Result" in (f.local_ty(t2["dest"]["l"]) or ""):
-                        src = callee_name(t2).split("::")[-1]
                 err_exits.append((bi, src, t.get("ln")))
     for (bi, src, ln) in err_exits:
         res.inst("late-error-exit/" + src, line=ln)
